@@ -73,10 +73,11 @@ PROPS = {
     },
     "C18": {
         "level": "other",
-        "explanation": "Narrow claim on the dual representation of strings. Decided by Verus contracts on real text: every method of FencedString that builds or reads the representation (src/util/fenced_string.rs: from_string, from_str, len, substr, substring, char_index_of_byte, bytes, as_str, is_empty, push, push_ascii, shrink_to_fit, to_lowercase, to_uppercase, and the `+` impl) against the representation invariant (an empty offset table means pure ASCII text, a non-empty one has one entry per code point, entry i being the byte offset of code point i): the constructor establishes the invariant over exactly the given text (and keeps no table for ASCII text); `len` is the number of code points; `substr` / `substring` of (start, end) with start <= len denote exactly the code points [start, min(end, len)) whichever representation the string has, and `substring` returns a well-formed string; push / `+` give the concatenation with a table for the whole, for each of the four combinations of representations; case mapping returns the mapped text with a table for ITS code points; the natives get / find / rfind / substring (src/builtin/str.rs) turn every out-of-range request into an error value before they reach those functions, and find / rfind answer code-point positions. UTF-8 itself is abstracted by uninterpreted functions (number of code points, byte offset of a code point) with the boundary / slicing / concatenation facts the code relies on as axioms; `String` / `Vec` / `str` / `Either` are model types of the same names. NOT decided: the literal grammar and escapes, formatted strings, comparison, and every string function written in the xray language (split, replace, strip, partition, ...).",
+        "explanation": "Narrow claim on the dual representation of strings. Decided by Verus contracts on real text: every method of FencedString that builds or reads the representation (src/util/fenced_string.rs: from_string, from_str, len, substr, substring, char_index_of_byte, bytes, as_str, is_empty, push, push_ascii, shrink_to_fit, to_lowercase, to_uppercase, and the `+` impl) against the representation invariant (an empty offset table means pure ASCII text, a non-empty one has one entry per code point, entry i being the byte offset of code point i): the constructor establishes the invariant over exactly the given text (and keeps no table for ASCII text); `len` is the number of code points; `substr` / `substring` of (start, end) with start <= len denote exactly the code points [start, min(end, len)) whichever representation the string has, and `substring` returns a well-formed string; push / `+` give the concatenation with a table for the whole, for each of the four combinations of representations; case mapping returns the mapped text with a table for ITS code points; the natives get / find / rfind / substring (src/builtin/str.rs) turn every out-of-range request into an error value before they reach those functions, and find / rfind answer code-point positions; the native `+` on strings answers the concatenation (after an overflow-free pre-flight check), and the generator consumer `join` (on which the language's join / repetition are written) answers e0 + d + e1 + ... + e(n-1), well-formed, the leftmost error value or violation ending it. UTF-8 itself is abstracted by uninterpreted functions (number of code points, byte offset of a code point) with the boundary / slicing / concatenation facts the code relies on as axioms; `String` / `Vec` / `str` / `Either` are model types of the same names. NOT decided: the literal grammar and escapes, formatted strings, comparison, and every string function written in the xray language (split, replace, strip, partition, ...).",
         "units": [
             {"kind": "verus", "unit": "fstr"},
             {"kind": "verus", "unit": "strnat"},
+            {"kind": "verus", "unit": "strjoin"},
         ],
         "unreached": [
             "the literal grammar (xray.pest), escapes (str_escapes.rs), formatted strings (xformatter.rs)",
